@@ -6,6 +6,7 @@ import (
 	"errors"
 	"fmt"
 	"io"
+	"strings"
 	"unicode/utf8"
 
 	"verifharness/vh"
@@ -15,7 +16,7 @@ var errInjected = errors.New("c05x: injected reader failure")
 
 // Sched describes how the bytes are handed to the decoder.
 type Sched struct {
-	Chunk   string // whole | 1 | 2 | 3 | 7 | midrune | rand
+	Chunk   string // whole | 1 | 2 | 3 | 7 | midrune | rand; prefix "z": the first Read returns 0 bytes and no error
 	Seed    uint64 // for rand
 	FaultAt int    // -1: none; else after that many bytes every Read fails
 	Fault   string // inj | ueof
@@ -39,10 +40,10 @@ type schedReader struct {
 
 func newSchedReader(b []byte, s Sched) *schedReader {
 	r := &schedReader{b: b, sched: s}
-	if s.Chunk == "rand" {
+	if strings.TrimPrefix(s.Chunk, "z") == "rand" {
 		r.rng = vh.NewRng(s.Seed)
 	}
-	if s.Chunk == "midrune" {
+	if strings.TrimPrefix(s.Chunk, "z") == "midrune" {
 		r.cuts = map[int]bool{}
 		for i := 0; i < len(b); {
 			_, n := utf8.DecodeRune(b[i:])
@@ -61,6 +62,9 @@ func newSchedReader(b []byte, s Sched) *schedReader {
 
 func (r *schedReader) Read(p []byte) (int, error) {
 	r.Reads++
+	if r.Reads == 1 && strings.HasPrefix(r.sched.Chunk, "z") {
+		return 0, nil // a Reader may return 0, nil; the first call of schedule "z…" does
+	}
 	end := len(r.b)
 	if r.sched.FaultAt >= 0 && r.sched.FaultAt < end {
 		end = r.sched.FaultAt
@@ -79,7 +83,7 @@ func (r *schedReader) Read(p []byte) (int, error) {
 		return 0, nil
 	}
 	n := len(p)
-	switch r.sched.Chunk {
+	switch strings.TrimPrefix(r.sched.Chunk, "z") {
 	case "1":
 		n = 1
 	case "2":
